@@ -226,14 +226,14 @@ def build_unit(unit_dir, out_path, mutate=None, neg_control=False, bodies=None):
                 hdr = Piece("impl %s header" % ty, ("impl %s for %s" % (trait, ty) if trait else "impl " + ty) + side, shown, path, blk.start, blk.body_open + 1,
                             sf.src[blk.start:blk.body_open + 1])
                 hdr.kind = "impl_header"
-                hdr.opts = dict(opts, rewrites=opts["rewrites"] & {"R1", "R2"})
+                hdr.opts = dict(opts, rewrites=(opts["rewrites"] & {"R1", "R2"}) | ({"R1"} if "R1p" in opts["rewrites"] else set()))
                 pieces.append(hdr)
                 for mth in ms:
                     wanted.remove(mth.name) if mth.name in wanted else None
                     fnpath = ("<%s as %s>::%s" % (ty, trait, mth.name)) if trait else "%s::%s" % (ty, mth.name)
                     p = Piece("method " + fnpath, fnpath + side, shown, path, mth.start, mth.end, sf.src[mth.start:mth.end])
                     p.kind = "fn" if mth.kind == "fn" else "assoc"
-                    p.opts = opts
+                    p.opts = opts if not (trait and "R1p" in opts["rewrites"]) else dict(opts, rewrites=(opts["rewrites"] - {"R1p"}) | {"R1"})
                     p.is_fn = mth.kind == "fn"
                     p.indent = "    "
                     p.src_line = sf.src.count("\n", 0, mth.start) + 1
